@@ -78,7 +78,12 @@ PROPS = {
                     F + "_move_and_get_checksums", F + "_update_refs_file",
                     F + "_rename_path_for_deletion", F + "_delete_marked_files",
                     F + "store_object", F + "store_metadata", F + "delete_metadata"],
-                   r"post/fs"),
+                   r"post/fs")
+        # "still referenced" is read from the reference files: the functions that keep them
+        # exact are part of the cone (their lemmas are C05's invariant)
+        + fns([F + "_is_string_in_refs_file", F + "_find_object", F + "_store_hashstore_refs_files",
+               F + "tag_object", F + "_write_refs_file", F + "_verify_hashstore_references",
+               F + "_read_small_file_content"]),
         "lemmas": ["inv/store_object", "inv/tag_object", "inv/delete_object",
                    "inv/delete_if_invalid_object", "inv/store_metadata", "inv/delete_metadata",
                    "frame/delete_object", "frame/delete_if_invalid_object"],
@@ -87,9 +92,9 @@ PROPS = {
                          r"objects-and-references-untouched|object-bytes-kept)"],
     },
     "C05": {
-        "fns": fns(PUBLIC_OBJ + PUBLIC_META + REFS_CORE + META_CORE + REF_HELPERS
+        "fns": fns(PUBLIC_OBJ + PUBLIC_META + REFS_CORE + META_CORE
                    + [f for f in OBJ_CORE if "_verify_object_information" not in f],
-                   r"post/(outcome|fs)|loop-foreach/.*"),
+                   r"post/(outcome|fs)|loop-foreach/.*") + fns(REF_HELPERS),
         "extra": [r"refs/line-is-wsfree"],
         "lemmas": ["inv/store_object", "inv/tag_object", "inv/delete_object",
                    "inv/delete_if_invalid_object", "inv/store_metadata", "inv/delete_metadata",
